@@ -28,9 +28,16 @@ static int c14_print_cmds(char *out, const uint8_t *en, int style) {
 }
 static void c14_surface(Buf *b, const char *tag) {
     /* every command code with an empty body */
-    tr_begin("surface tag=%s cmds=", tag);
+    tr_begin("surface tag=%s cmds=", tag); int off[0x1A0 - 0x11F], noff = 0;
     for (int cc = 0x11F; cc < 0x1A0; cc++) { if (cc == CC_Startup || cc == CC_Shutdown) { fprintf(g_tr, "%s%x:-", cc == 0x11F ? "" : ",", cc); continue; }
-        cmd_begin(b, ST_NO_SESSIONS, cc); Rsp r = run(b); fprintf(g_tr, "%s%x:%x", cc == 0x11F ? "" : ",", cc, r.rc); }
+        cmd_begin(b, ST_NO_SESSIONS, cc); Rsp r = run(b); fprintf(g_tr, "%s%x:%x", cc == 0x11F ? "" : ",", cc, r.rc); if (r.rc == 0x143) off[noff++] = cc; }
+    tr_end();
+    /* the command lists started EXACTLY at a command that is off: it must not be the first entry (enumerations that start
+       elsewhere step over it in another place of the code); and the totals the TPM reports against what it enumerates */
+    tr_begin("capstart tag=%s list=", tag); int firstc = 1;
+    for (int k = 0; k < noff; k++) for (uint32_t cap = 2; cap <= 4; cap++) { cmd_begin(b, ST_NO_SESSIONS, CC_GetCapability); b_u32(b, cap); b_u32(b, (uint32_t)off[k]); b_u32(b, 1); Rsp r = run(b);
+        uint32_t first = 0; if (r.rc == 0 && r.len >= 23 && g32(r.p + 15) >= 1) first = g32(r.p + 19) & 0xffff;
+        fprintf(g_tr, "%s%u:%x:%x", firstc ? "" : ",", cap, off[k], first); firstc = 0; }
     tr_end();
     /* capability lists */
     static const uint32_t caps[3] = {2 /* COMMANDS */, 0 /* ALGS */, 8 /* ECC_CURVES */};
@@ -41,6 +48,8 @@ static void c14_surface(Buf *b, const char *tag) {
             for (uint32_t i = 0; i < cnt; i++) { if (caps[k] == 2) { last = g32(q) & 0xffff; q += 4; } else if (caps[k] == 0) { last = g16(q); q += 6; } else { last = g16(q); q += 2; } fprintf(g_tr, "%s%u", first ? "" : ",", last); first = 0; }
             if (!more || cnt == 0) break; next = last + 1; }
         tr_end(); }
+    { uint32_t v[2] = {0, 0}; for (int k = 0; k < 2; k++) { cmd_begin(b, ST_NO_SESSIONS, CC_GetCapability); b_u32(b, 6); b_u32(b, 0x129 + k); b_u32(b, 1); Rsp r = run(b); if (r.rc == 0 && r.len >= 27) v[k] = g32(r.p + 23); }
+      tr("totals tag=%s total=%u library=%u", tag, v[0], v[1]); }
     /* TestParms: RSA key sizes */
     tr_begin("testparms tag=%s rsa=", tag);
     static const int bits[4] = {1024, 2048, 3072, 4096};
